@@ -1,6 +1,6 @@
 (* C07 -- History recall shows entries in order and returns the in-progress line intact.
    Property theorems only. Position p = e_hidx in [0, len]; p = len is "the line being typed". *)
-From RL Require Import UData LineBuffer Editor EditorRun RecallProofs RecallSpec.
+From RL Require Import UData LineBuffer Editor EditorRun RecallProofs RecallSpec NoPanic RecallWalk.
 
 (* the stored history is read-only for a read: NO input, in either mode, with any helper or binding,
    makes the main loop (reader, keymaps, completion and search sub-loops, every command) change it *)
@@ -80,6 +80,24 @@ Proof. exact last_restores_line. Qed.
 Print Assumptions C07_last_restores_line.
 
 (* non-vacuity: history [old; new]; type "wip", Up Up, edit the recalled entry, Down Down: "wip" is back *)
+(* WHOLE WALKS. From the line being typed, in a state satisfying the editor's invariant J (NoPanic: the initial state
+   of every read has it and every command keeps it), ANY sequence of Previous / Next steps (true / false) ends where
+   walking an index over the stored list ends: on an entry it shows exactly that entry with the cursor at its end; back
+   past the newest entry it shows the line that was being typed, character for character, with its cursor; the list is
+   unchanged; nothing panics on the way. *)
+Theorem C07_recall_walk :
+  forall (U : UData) (cfg : config) (s : est) (ks : list bool),
+  J s -> e_hidx s = hlen s ->
+  exists s', walk_m U cfg ks s = EOk tt s'
+    /\ e_hist s' = e_hist s
+    /\ let i := walk_i ks (hlen s) (hlen s) in
+       e_hidx s' = i
+       /\ (i = hlen s -> buf (e_line s') = buf (e_line s) /\ pos (e_line s') = pos (e_line s))
+       /\ (i < hlen s -> exists entry, nth_error (e_hist s) i = Some entry
+                                       /\ buf (e_line s') = entry /\ pos (e_line s') = blen entry).
+Proof. exact recall_walk. Qed.
+Print Assumptions C07_recall_walk.
+
 Example C07_example :
   let cfg := mk_config Emacs CTCircular true 80 false [] [] VKNone [] in
   let inp := mkIn [] [[Ch 119; Ch 105; Ch 112]; [Ch 16]; [Ch 16]; [Ch 33]; [Ch 14]; [Ch 14]; [Ch 13]]%N in
